@@ -14,7 +14,7 @@ from harness import c07_stmts as S
 META = {
     "id": "C07",
     "technique": "Coq proof (induction over line lists: _strip_inline_comment vs Python's comment rule, _collect_block vs Python's block rule, round trip of the block-skeleton parser over every layout of the re-layout relation; reflection over the translator-generated line-accounting table) + extracted-model correspondence with the real lexical functions, header regexes and the recorded _parse_simple_lines call tree + CPython tokenize/ast validation of the specification + re-layout metamorphism and line-accounting oracles on the real parse()+emit() with the REDUINO_VERIF hook + Coq model of the control-flow part of _emit_block / emit() with a C++ compound-statement reader as specification (induction over IR trees: the firmware's block tree and the conditions every line runs under are Python's) + block-structure oracle on the real firmware",
-    "level_text": "Theorems C07_* (coq/Props/C07.v) are proved for all line lists about a Gallina model of the lexical layer of parser.py (Lang/Lex.v) against a hand-written model of Python's layout rules (Lang/PyLayout.v, validated against CPython's tokenizer and ast on every run). Block extent and comment stripping are proved inside explicit guards and refuted outside them by concrete witnesses (mixed tabs, '#' in a triple-quoted literal); comment-only lines at any column, trailing comments on column-0 headers and on elif/else/except are inside the guards since the repair of the comment handling (fixed findings, replayed on every run); the line-accounting table (69 statement kinds x 4 contexts) is regenerated from the current parser and checked by computation against the fixed set of the property plus the listed gaps; `continue` left the listed gaps with the repair of the parser (fixed finding, replayed on every run) and is pinned: translated in a for/while loop and at the level of the main loop, rejected outside any loop. The firmware side (Lang/EmitBlocks.v): _emit_block's treatment of IfStatement / WhileLoop / ForRangeLoop / TryStatement and the function / setup / loop sections of emit() are modelled line by line; read the way C++ groups lines into compound statements, the emitted lines are proved to be one stanza per branch, loop and handler around exactly its own lines (C07_emit_block_structure, C07_sketch_sections_structure), and - composed with the grouping of the lexical skeleton into IR nodes and with C07_roundtrip_partial - the compound statements of the firmware and the conditions each line runs under are proved to be those of Python's block tree for every layout inside the guard (C07_firmware_blocks_are_pythons_partial, C07_layout_to_firmware_partial, C07_firmware_paths_are_pythons_partial); the statement layer enters these theorems as arbitrary functions. The model is run against the real functions on enumerated and generated inputs; the property's own relations (same firmware across layouts; no unlisted line disappears; every control header of the script is in the firmware once and every numbered statement / break / continue / return runs in the function and under the chain of conditions Python gives it) are evaluated on the real transpiler.",
+    "level_text": "Theorems C07_* (coq/Props/C07.v) are proved for all line lists about a Gallina model of the lexical layer of parser.py (Lang/Lex.v) against a hand-written model of Python's layout rules (Lang/PyLayout.v, validated against CPython's tokenizer and ast on every run). Block extent and comment stripping are proved inside explicit guards and refuted outside them by concrete witnesses (mixed tabs, '#' in a triple-quoted literal); comment-only lines at any column, trailing comments on column-0 headers and on elif/else/except are inside the guards since the repair of the comment handling (fixed findings, replayed on every run); the line-accounting table (70 statement kinds x 4 contexts) is regenerated from the current parser and checked by computation against the fixed set of the property plus the listed gaps; `continue` left the listed gaps with the repair of the parser (fixed finding, replayed on every run) and is pinned: translated in a for/while loop and at the level of the main loop, rejected outside any loop; since the repair of the silent drops ('unknown -> ignore' became ValueError) the 127 remaining (kind, context) pairs left the gaps and are pinned Rejected (C07_former_gaps_rejected), the positive theorem C07_dispatch_total_partial (neither in the fixed set nor the one gap left => never dropped) replaced the refutation, the end of the dispatch loop is modelled (C07_tail_never_drops, C07_tail_rejects_unrecognised, for every line), one gap is left (host-side SerialMonitor.connect/close). The firmware side (Lang/EmitBlocks.v): _emit_block's treatment of IfStatement / WhileLoop / ForRangeLoop / TryStatement and the function / setup / loop sections of emit() are modelled line by line; read the way C++ groups lines into compound statements, the emitted lines are proved to be one stanza per branch, loop and handler around exactly its own lines (C07_emit_block_structure, C07_sketch_sections_structure), and - composed with the grouping of the lexical skeleton into IR nodes and with C07_roundtrip_partial - the compound statements of the firmware and the conditions each line runs under are proved to be those of Python's block tree for every layout inside the guard (C07_firmware_blocks_are_pythons_partial, C07_layout_to_firmware_partial, C07_firmware_paths_are_pythons_partial); the statement layer enters these theorems as arbitrary functions. The model is run against the real functions on enumerated and generated inputs; the property's own relations (same firmware across layouts; no unlisted line disappears; every control header of the script is in the firmware once and every numbered statement / break / continue / return runs in the function and under the chain of conditions Python gives it) are evaluated on the real transpiler.",
     "level_text_2": "Added: (a) the round trip at the level of parse() is PROVED (C07_top_roundtrip_partial, C07_top_relayout_invariant_partial: target(...) directives, import filter, column-0 while True / while / for / def, if / try chains through _collect_if/try_structure, simple statements; guard Layout.top_layout_ok) and composed with the firmware block theorems into one statement from source text to emitted C++ blocks (C07_script_to_firmware_partial, C07_two_layouts_same_firmware_partial). (b) the statement recognisers are inside the model: every RE_* pattern is translated from its parsed form into Lang/Rx.v (derivative matcher, C07_rx_match_decides), 63 of 74 are proved to be instances of five shapes, the dispatch loop of _parse_simple_lines (order, device-set guards) is regenerated from its source and pinned (C07_dispatch_chain_pinned); optional spacing between tokens is proved accepted for every spacing inside the exact guard (C07_call0_spacing_partial, C07_call_spacing_partial, C07_decl_spacing, C07_sleep_spacing) and refuted outside it by the witnesses of the two findings (C07_call_paren_space_refuted, C07_call_dot_space_refuted, C07_call_args_paren_space_refuted, C07_keyword_paren_refuted).",
     "level_text_3": "Added (third round): the statement layer between the lexical skeleton and the emitted blocks. (c) variable promotion is inside the model (Lang/Promote.v: _rewrite_nodes, the if handler's local _rewrite, _make_promotion_decls, what the while / for / try / if handlers append): for EVERY set of promoted names and every node tree the rewritten tree holds the same statements in the same places (C07_promotion_rewrite_keeps_every_statement, C07_promotion_rewrite_if_keeps_every_statement, C07_promotion_rewrite_keeps_paths), no promoted name stays declared below (C07_promotion_rewrite_assigns_promoted), and a handler adds nothing but default-initialised placeholder declarations in front of the block (C07_promoted_loop_keeps_its_body, C07_promotion_adds_only_placeholders). (d) _emit_block's statement nodes next to the de-duplication sets it threads through setup() (Lang/EmitStmt.v): emitting = resolving the device declarations against the sets, then writing (C07_emit_resolves_then_writes); resolving touches no statement node (C07_resolve_keeps_every_statement); hence in every state of the sets, inside and outside setup(), the lines of every statement node and stanza are written, in order, as often as the script makes the statement (C07_statement_lines_written_in_every_state, C07_statement_line_count, C07_statements_ignore_the_sets, C07_outside_setup_sets_unchanged). Both models run against the real functions (_rewrite_nodes, _make_promotion_decls, _emit_block with given sets) on generated IR trees, and the theorems' relations are evaluated on the real outputs (oracle).",
     "level_note": "Trusted: Coq kernel, translator harness/gen/dispatch.py (black-box observation of parse+emit), extraction, OCaml driver, CPython tokenize/ast as 'what Python means'. Theorems are about the model. The RE_* patterns and the order / guards of the dispatch loop are regenerated from parser.py on every run (harness/gen/linerx.py, fail-closed) and run by a regex engine proved to decide the usual language of a regular expression.",
@@ -22,6 +22,17 @@ META = {
 }
 
 OUTCOME_CODE = {"Translated": 0, "Rejected": 1, "Ignored": 2}
+# statement kinds that were silently dropped until "fix: reject statements the transpiler cannot translate instead of
+# dropping them" (DispatchSpec.former_gap_kinds + nested def): generated since, every script holding one must be rejected
+FORMER_GAP_KINDS = ["annassign", "chained_assign", "subscript_assign", "attr_assign", "walrus_expr", "dev_unknown_method",
+                    "dev_unknown_method_args", "serial_unknown_method", "undeclared_method_call", "del_stmt", "assert_stmt",
+                    "raise_stmt", "yield_stmt", "await_stmt", "semicolon_join", "backslash_continuation", "bracket_continuation",
+                    "if_inline_body", "while_inline_body", "with_stmt", "match_stmt", "class_def", "async_def", "decorator",
+                    "while_else", "for_else", "for_over_list", "for_over_name", "try_finally", "try_except_else", "nonlocal_decl",
+                    "nested_def"]
+# a second statement behind a line of the fixed set (the fix's patterns for imports / global declarations exclude `;`)
+EXTRA_UNSUPPORTED = {"semicolon_after_import": ["import os; mon.write(7)"], "semicolon_after_from_import": ["from math import sin; mon.write(7)"],
+                     "semicolon_after_global": ["global x; mon.write(7)"], "semicolon_after_pass": ["pass; mon.write(7)"]}
 CTX_CODE = {c: i for i, c in enumerate(D.CONTEXTS)}
 
 # what the hook may report for the lines of the fixed set (generated `allowed` leaves)
@@ -71,7 +82,9 @@ HEADER_SEEDS = ["if x > 1:", "if x>1 :", "if(x > 1):", "if :", "if  :", "if x:",
                 "from Reduino import target", "from Reduino.Core import pin_mode, digital_write", "from Reduino.Core import *",
                 "from Reduino.Sensors import Ultrasonic", "from Reduino.Sensors import Button", "from Reduino.Sensors import Potentiometer",
                 "from Reduino.Actuators import Servo", "from  Reduino.Actuators  import  Led", "from Reduino.Actuators import Led, Servo",
-                "from Reduino.Core import", "import Reduino", "from Reduino.Sensors import Led", "from Reduino.Utils import target"]
+                "from Reduino.Core import", "import Reduino", "from Reduino.Sensors import Led", "from Reduino.Utils import target",
+                "import os", "import os as o", "import os; x = 5", "import os;", "import ;", "from math import sin; x = 5", "from a;b import c",
+                "from math import (sin, cos)", "from math import", "import", "importx y", "from x import", "from  x  import  y , z"]
 
 
 def header_cases(rng, progs_lines, thorough):
@@ -168,6 +181,7 @@ def run(ctx: C.Ctx):
     for i in range(n_asg):
         progs.append(G.gen_asg_program(rng, maxdepth=rng.choice([2, 3, 3, 4])))
     progs += G.systematic_asg_programs()
+    progs = [G.imports_as_directives(tops) for tops in progs]
     _learn_replines(progs)
     inguard = []       # (prog index, unit, ltops, final junk, lines)
     for pi, tops in enumerate(progs):
@@ -259,6 +273,68 @@ def run(ctx: C.Ctx):
     for (pi, u, lt, fj, lines), r in zip(inguard, impl_in):
         if pi in base and base[pi][0] is lines and r.get("exc"):
             ctx.fail("a script of the supported subset in canonical layout is rejected", {"script": lines}, "accepted", r.get("exc"), key="canonical-rejected")
+
+    # ---- oracle B2 (since the repair of the silent drops; this region used to be excluded by the guard "no statement of a
+    # kind in DispatchSpec.known_gaps"): a statement of a formerly dropped kind inserted at a random statement position of an
+    # accepted program (any depth, any block kind, function bodies, the main loop) must make the transpiler REJECT the script
+    inj = []
+    accepted = [pi for pi in sorted(base) if not base[pi][1].get("exc")]
+    for _ in range(600 if thorough else 150):
+        if not accepted:
+            break
+        pi = rng.choice(accepted)
+        lines = list(base[pi][0])
+        spots = [k for k, l in enumerate(lines) if l.strip() and not l.lstrip().startswith("#")
+                 and not re.match(r"\s*(elif\b|else\s*:|except\b)", l)]
+        if not spots:
+            continue
+        k = rng.choice(spots)
+        ind = lines[k][: len(lines[k]) - len(lines[k].lstrip())]
+        kind = rng.choice(FORMER_GAP_KINDS + sorted(EXTRA_UNSUPPORTED))
+        if kind == "nested_def" and not ind:
+            continue                                  # a def at column 0 is an ordinary function
+        probe = EXTRA_UNSUPPORTED[kind] if kind in EXTRA_UNSUPPORTED else D.KINDS[D.KIND_IDS.index(kind)][1]
+        inj.append((kind, len(ind), lines[:k] + [ind + pl for pl in probe] + lines[k:]))
+    inj_res = C.run_impl("c07_impl.py", {"cases": [["trace", l] for _, _, l in inj]}, timeout=3000) if inj else []
+    for (kind, depth, lines), r in zip(inj, inj_res):
+        evaluations += 1
+        dist["formerly_excluded_now_generated"]["unsupported:" + kind] = dist["formerly_excluded_now_generated"].get("unsupported:" + kind, 0) + 1
+        nontrivial.add(("inject", kind, "\n".join(lines)))
+        if not r.get("exc"):
+            ctx.fail(f"a script containing the unsupported statement kind {kind} is accepted: the statement disappears from (or is mistranslated in) the firmware without a diagnostic",
+                     {"script": lines, "probe": EXTRA_UNSUPPORTED.get(kind) or D.KINDS[D.KIND_IDS.index(kind)][1]}, "rejected with an error", "accepted", key="unsupported-accepted:" + kind)
+
+    # ---- oracle B3: an import statement in any form (plain, `as`, parenthesised on one line, parenthesised over several lines
+    # with or without comments - _import_end skips it as ONE statement) inserted at a random statement position changes nothing:
+    # same firmware as without it (no neighbouring statement is swallowed, nothing of the import reaches the sketch)
+    IMPORT_FORMS = [["import os"], ["import os as o, sys"], ["from math import sin, cos"], ["from math import (sin, cos)"],
+                    ["from math import (sin, cos)  # both"], ["from math import (", "    sin,", "    cos,", ")"],
+                    ["from math import (  # names", "        sin,  # one (1)", "", "        cos", "    )"],
+                    ["from Reduino.Core import (pin_mode,", "    digital_write)"]]
+    imp_cases = []
+    for _ in range(240 if thorough else 60):
+        if not accepted:
+            break
+        pi = rng.choice(accepted)
+        lines = list(base[pi][0])
+        spots = [k for k, l in enumerate(lines) if l.strip() and not l.lstrip().startswith("#")
+                 and not re.match(r"\s*(elif\b|else\s*:|except\b)", l)]
+        if not spots:
+            continue
+        k = rng.choice(spots)
+        ind = lines[k][: len(lines[k]) - len(lines[k].lstrip())]
+        form = rng.choice(IMPORT_FORMS)
+        imp_cases.append((pi, form, lines[:k] + [(ind + fl) if fl else fl for fl in form] + lines[k:]))
+    imp_res = C.run_impl("c07_impl.py", {"cases": [["trace", l] for _, _, l in imp_cases]}, timeout=3000) if imp_cases else []
+    for (pi, form, lines), r in zip(imp_cases, imp_res):
+        evaluations += 1
+        dist["formerly_excluded_now_generated"]["import form:" + form[0][:28]] = dist["formerly_excluded_now_generated"].get("import form:" + form[0][:28], 0) + 1
+        nontrivial.add(("import-form", "\n".join(lines)))
+        b = base[pi][1]
+        if r.get("exc") or r.get("cpp") != b.get("cpp"):
+            ctx.fail("an import statement inserted into an accepted script changes the firmware (or the script is rejected): imports have no meaning on the device and must not swallow or disturb a neighbouring statement",
+                     {"script": lines, "import": form}, {"exc": None, "firmware": _diff_hint(b.get("cpp"), r.get("cpp"), True)},
+                     {"exc": r.get("exc"), "firmware": _diff_hint(b.get("cpp"), r.get("cpp"), False)}, key="import-form")
 
     # ---- oracle C: the block structure of the FIRMWARE is Python's (every control header of the script once, every
     # numbered statement and every break/continue/return under the conditions and in the function/phase Python puts
@@ -647,7 +723,8 @@ def run(ctx: C.Ctx):
         probe = D.KINDS[D.KIND_IDS.index(kind)][1]
         if len(probe) == 1 and w.get("ignored") is not None and not w["exc"] and kind not in ("comment_line",):
             hooked = any(e[2] == probe[0].strip() for e in w["ignored"])
-            silently_filtered = kind in ("from_import_reduino", "from_import_core", "target_call")   # filtered before the three hook sites
+            silently_filtered = kind in ("from_import_reduino", "from_import_core", "target_call",   # filtered before the hook sites
+                                         "import_plain", "import_as", "from_import", "from_import_star")  # (every import since _import_end)
             partial = kind in ("semicolon_join",)      # the line yields a node for its first statement; the tail is lost without passing a hook site
             if oc == "Ignored" and not hooked and not silently_filtered and not partial:
                 ctx.disagree("hook _VERIF_IGNORED vs black-box observation (ignored line not reported by the hook)", script, "reported", w["ignored"])
@@ -712,9 +789,14 @@ def run(ctx: C.Ctx):
     hdist = {}
     if have_model:
         d_model = ctx.model([[18, a, [sets[k] for k in L.SET_KEYS], t] for t, a, sets in dcases])
-        for (t, a, sets), ri, mo in zip(dcases, d_impl, d_model):
+        # the END of the loop for the lines that reach it (Wire case 23): class and the patterns the tail itself tries
+        tail_idx = [j for j, (ri, mo) in enumerate(zip(d_impl, d_model)) if mo[2][0] == 6 and ri.get("isexpr") is not None]
+        t_model = dict(zip(tail_idx, ctx.model([[23, bool(d_impl[j]["isexpr"]), dcases[j][0]] for j in tail_idx])))
+        for j, ((t, a, sets), ri, mo) in enumerate(zip(dcases, d_impl, d_model)):
             n_disp += 1
             mtrace = [[e[0], bool(e[1])] for e in mo[1]]
+            if j in t_model:
+                mtrace += [[e[0], bool(e[1])] for e in t_model[j][3]]
             h = mo[2]
             hname = {0: "import", 1: "eq", 2: "prefix", 3: "rx", 4: "search", 5: "assign", 6: "tail"}[h[0]]
             hkey = hname + (":" + rx_names[h[1]] if h[0] in (0, 3, 4) else "")
@@ -735,6 +817,35 @@ def run(ctx: C.Ctx):
                              {"trace": [[rx_names[i], b] for i, b in rtrace], "asg": ri["asg"], "exc": ri["exc"], "nodes": ri["nodes"]})
             nontrivial.add(("dispatch", hkey, t))
         evaluations += n_disp
+        # (ii-b) the END of the loop (repaired: "unknown -> ignore" became ValueError): every line that reaches the tail is
+        # an expression statement, or skipped as `pass` / a global declaration, or REJECTED - model = code, and as an oracle
+        # on the code alone: a line that reached the tail never vanishes without a node, an exception or a hook record
+        tdist = {}
+        for j in tail_idx:
+            t, ri, mo = dcases[j][0], d_impl[j], t_model[j]
+            evaluations += 1
+            cls = {0: "expression", 1: "skipped", 2: "rejected", 3: "dropped"}[mo[1]]
+            reasons = sorted({e[3] for e in (ri.get("ignored") or [])})
+            if ri["exc"]:
+                real = "rejected"
+            elif ri["nodes"]:
+                real = "translated"
+            elif reasons:
+                real = "skipped:" + ",".join(reasons)
+            else:
+                real = "vanished"
+            tdist[cls + " -> " + real] = tdist.get(cls + " -> " + real, 0) + 1
+            if real == "vanished" or real.startswith("skipped:unknown") or "expr-translation-failed" in real:
+                ctx.fail(f"the line {t!r} reached the end of the dispatch loop and was dropped: no node, no exception, not one of the lines without a meaning on the device",
+                         {"line": t}, "translated, rejected, or skipped as pass / global / print / constant / host-side serial call",
+                         {"nodes": ri["nodes"], "exc": ri["exc"], "hook": ri.get("ignored")}, key="tail-dropped")
+                continue
+            ok = ((cls == "rejected" and real == "rejected") or (cls == "skipped" and real == "skipped:no-device-meaning")
+                  or (cls == "expression" and (real in ("rejected", "translated") or real in ("skipped:print", "skipped:constant-expression", "skipped:host-only"))))
+            if not ok:
+                ctx.disagree("end of the dispatch loop (tail_class_of on the regenerated tail facts) vs the real _parse_simple_lines", t, cls, real)
+            nontrivial.add(("tail", cls, t))
+        dist["tail_lines"] = dict(sorted(tdist.items()))
     dist["dispatch_handlers_reached"] = dict(sorted(hdist.items()))
     # (iii) the spacing theorems: the Coq renderers are the Python twins; inside the exact guard Python's tokenizer sees the same
     # statement AND the real parser builds the same nodes as for the canonical spacing (oracle); outside: model = code only
@@ -829,7 +940,7 @@ def run(ctx: C.Ctx):
                  "indent unit 1-8 spaces / tab / two tabs, optional spacing at marked places) + out-of-guard perturbations (model-vs-code only). "
                  "lexical: exhaustive strings over {a,blank,#,',\",\\} up to length 5 (6 thorough) and over {blank,tab,x,#,FF,NBSP,U+3000} up to length 3 (4), "
                  "realistic lines, every start index of generated scripts for the three span functions, header texts with near-misses. "
-                 "accounting: one probe per (69 kinds x 4 contexts) with and without the probe line. "
+                 "accounting: one probe per (70 kinds x 4 contexts) with and without the probe line; formerly dropped statement kinds (127 (kind, context) pairs, now rejected) inserted at a random statement position of generated programs - every such script must be rejected. "
                  f"firmware block structure: the programs above plus {n_hollow} random programs in which every body (if / elif / else / while / for / try / except / def / main loop) is, with probability 0.35, made only of lines of the fixed set (pass, print, docstring, import), with chains of up to 5 elif and with break / bare return, plus an exhaustive family (every if chain of 1-3 branches and optional else, every try with 1-2 handlers, every loop, with bodies over {{device statement, pass, print}}, at column 0 / in the main loop / in a function / in a for body); "
                  "oracle C compares, per function of the sketch, the multiset of (path, item) - items: control headers, numbered statements, break / continue / return; path: function, enclosing loops / try / catch, and for a member of an if chain its own condition and the negated earlier ones - computed from the skeleton and from the firmware read with the C++ reader; the smallest failing script per class is shrunk by removing statements while the real transpiler still fails. "
                  "emitter: random IR control skeletons (depth <= 4, bodies empty with probability 0 / 0.3 / 0.6, 11 leaf node kinds incl. one that emits nothing and one that opens its own block, 5 indentations) plus all 81+8 placements of empty / line-less / non-empty bodies in a 3-branch chain, through the real _emit_block and the extracted emit_list (lines equal), whole hand-built Programs through the real emit() (sections), the extracted C++ reader against its Python twin on every emitted block and every real firmware section, and py_cs of the model (parse_lines -> to_ir) against the compound statements of the real firmware of every generated program. "
